@@ -9,7 +9,7 @@ ENV = "GOFLAGS=-mod=mod GOPROXY=off GOSUMDB=off GOTOOLCHAIN=local"
 # property -> (category, technique, level text, level note, design ref)
 CHECKS = {
  "C01": ("exploration",
-   "runtime monitor: stuck-state certificate (two identical all-parked goroutine dumps with a still logical clock) + bounded-progress rule in completed render cycles, over generated terminating programs with hook-driven schedule perturbation",
+   "runtime monitor: stuck-state certificate (two identical all-parked goroutine dumps with a still logical clock) + spin rule (a goroutine running library code in five dumps while the clock stands still for 5 s) + bounded-progress rule in completed render cycles, over generated terminating programs with hook-driven schedule perturbation",
    "~1000 (quick) / ~20000 (thorough) generated terminating programs (n in 0..200 bars vs queue lengths incl. n>q, auto/manual/none, synced and slow decorators with different counts per bar, pop mode, removal, queue-after chains, priority churn, concurrent Write, render delay, user wait group, cancel/Shutdown by step or hook trigger) run against the real library under seeded delays at 15 hook points (incl. targeted single-point delays) and GOMAXPROCS 1/2/4/16; a hang is decided from goroutine states (deadlock) or from the number of completed render cycles after every bar is terminal (livelock), never from elapsed time.",
    "unbounded 'eventually' restated as the two safety forms of DESIGN 2.4; wall-clock watchdog firing = inconclusive; schedules are sampled",
    "DESIGN.md 2.4, 4/C01"),
@@ -44,7 +44,7 @@ CHECKS = {
    "goroutines running harness callbacks are the harness' own; still-moving goroutines extend the poll and are never called leaks",
    "DESIGN.md 4/C16"),
  "C04": ("exploration",
-   "runtime monitor: terminal emulator (ECMA-48 subset with scrollback) fed with every recorded output write; tape invariants checked after every frame; real pty for the terminal path",
+   "runtime monitor: terminal emulator (ECMA-48 subset with scrollback) fed with the recorded output stream (a frame = what one render cycle wrote, however chunked); tape invariants checked after every frame; row groups complete (all extender lines, on the documented side); real pty for the terminal path",
    "~960 (quick) / ~19000 (thorough) programs whose frames change height every cycle (bars added, removed, popped, extender rows, 0-5 text lines per cycle) on in-memory outputs and on real ptys of 2-24 rows x 60-200 columns with bar counts below, at and above the height; after every frame the emulator's tape must equal persisted lines ++ frame rows, the persisted region is append-only and made exactly of written text and popped rows, no live row is in the scrollback, no autowrap, nothing stale below; nothing before a render delay is released; nothing at all for non-refreshing non-terminal outputs.",
    "trusted base: the emulator (golden vectors re-checked by setup_cmd); terminal size fixed per scenario; priority changes are not generated in pop-mode display scenarios",
    "DESIGN.md 2.5, 4/C04"),
@@ -89,7 +89,7 @@ CHECKS = {
    "harness width table for the generated alphabet; ANSI colouring only through Meta wrappers; user fillers/decorators not held to the bound",
    "DESIGN.md 4/C07"),
  "C09": ("exploration",
-   "runtime monitor: reference state machine compared with the real getters (and frame Statistics) after every step of generated sequential programs; exhaustive to length 3 (thorough 4)",
+   "runtime monitor: reference state machine compared with the real getters (and frame Statistics) after every step of generated sequential programs; exhaustive to length 3 (thorough 4) from seven initial totals up to MaxInt64; the container's Wait must return afterwards (certified otherwise)",
    "All operation sequences of length 3 (thorough: 4) over a 20-letter alphabet from 5 initial totals, plus random sequences up to length 40, are executed on real bars in non-refreshing, manual and auto containers; after every step Current/Completed/Aborted (manual: Statistics in a rendered frame) must equal the Appendix-B reference machine.",
    "reference machine transcribes the documented rules; overflowing sums excluded; stops at the first terminal transition",
    "DESIGN.md 4/C09, Appendix B"),
@@ -99,7 +99,7 @@ CHECKS = {
    "duration bounds are nesting relations between measured intervals; samples after completion are optional",
    "DESIGN.md 4/C19"),
  "C20": ("exploration",
-   "runtime monitor: read-back oracle (printed string parsed and compared in 300-bit arithmetic with the true value) over unit-boundary lattices and random values; recording moving average for the estimator clauses",
+   "runtime monitor: read-back oracle (printed string parsed and compared in 300-bit arithmetic with the true value) over unit-boundary lattices and random values (all size/counter decorators, default formats included); recording moving average for the estimator clauses; the public EWMA constructors at a constant rate",
    "Every size/percentage/time/speed decorator output for ~220k (quick) / ~6M (thorough) generated (value, verb, flag, precision, route) cases is parsed back and must equal the true value within half a unit of the last printed digit with the largest fitting unit; sample sequences with n<=0 / zero durations must be conserved and reach the estimator through wrappers; elapsed/average speed must freeze on completion.",
    "documented domain only (0<=current<=total, <60 h); float eps 4e-16 relative",
    "DESIGN.md 4/C20"),
